@@ -16,7 +16,7 @@ dst,id_,prop,conf,out=sys.argv[1:6]
 try: c=json.loads(conf)
 except Exception: c={}
 res={}
-for m in re.finditer(r'^\[(C\d+)\] rc=(\d+) violations=(\d+)\s*(.*)$', out, re.M):
+for m in re.finditer(r'^\[(C\d+)\] rc=(\d+) violations=(\d+)[ \t]*(.*)$', out, re.M):
     res[m.group(1)]={"exit":int(m.group(2)),"violations":int(m.group(3)),"clauses":sorted(set(re.findall(r'clause=(C\d+\.[\w-]+)', m.group(4))))}
 needs=""
 try:
